@@ -99,7 +99,27 @@ def finish (o : Ops) (u : List Nat) : Option (List Nat) := do
     let q ← o.fin u0
     u.mapM (fun x => o.mul x q)
 
-/-- lines 650-677: `g -= (q1 x + q0) x^d f`, `v -= (q1 x + q0) x^d u` -/
+/-- the shape shared by lines 660-664 (`src = f`, `dst = g`, `deg = df`, where `d + df + 1 = dg`)
+and 668-672 (`src = u`, `dst = v`, `deg = du`): `dst -= (q1 x + q0) x^d src` -/
+def updTwo (o : Ops) (src dst : List Nat) (d deg q0 q1 : Nat) : Option (List Nat) := do
+  let s0 ← src[0]?
+  let t0 ← o.mul s0 q0
+  let a1 ← subAt o dst d t0                    -- subp(&mut dst[d], mulp(src[0], q0))
+  let a2 ← axLoop o (fun i => do               -- for i in 1..=deg
+      let a ← src[i]?
+      let b ← src[i - 1]?
+      o.dot a q0 b q1) d deg 1 a1
+  let sd ← src[deg]?
+  let tl ← o.mul sd q1
+  subAt o a2 (d + deg + 1) tl                  -- subp(&mut dst[d + deg + 1], mulp(src[deg], q1))
+
+/-- the shape shared by lines 682-684 and 687-689: `dst -= q x^d src` -/
+def updOne (o : Ops) (src dst : List Nat) (d deg q : Nat) : Option (List Nat) :=
+  axLoop o (fun i => do                        -- for i in 0..=deg
+      let a ← src[i]?
+      o.mul q a) d (deg + 1) 0 dst
+
+/-- lines 650-677: `g -= (q1 x + q0) x^d f`, `v -= (q1 x + q0) x^d u` (reached with `dg > df > 1`) -/
 def stepTwo (o : Ops) (s : St) : Option St := do
   let fdf ← s.f[s.df]?
   let invf0 ← o.inv fdf
@@ -112,30 +132,13 @@ def stepTwo (o : Ops) (s : St) : Option St := do
   let t ← o.mul q1 invf1
   let q0 ← o.sub q0a t
   let d := s.dg - s.df - 1
-  let f0 ← s.f[0]?
-  let t0 ← o.mul f0 q0
-  let g1 ← subAt o s.g d t0
-  let g2 ← axLoop o (fun i => do
-      let a ← s.f[i]?
-      let b ← s.f[i - 1]?
-      o.dot a q0 b q1) d s.df 1 g1
-  let tl ← o.mul fdf q1
-  let g3 ← subAt o g2 s.dg tl
+  let g3 ← updTwo o s.f s.g d s.df q0 q1
   let z ← g3[s.dg]?
   if z ≠ 0 then none else                      -- assert_eq!(g[dg], 0)
   let z1 ← g3[s.dg - 1]?
   if z1 ≠ 0 then none else                     -- assert_eq!(g[dg - 1], 0)
-  let u0 ← s.u[0]?
-  let w0 ← o.mul u0 q0
-  let v1 ← subAt o s.v d w0
-  let v2 ← axLoop o (fun i => do
-      let a ← s.u[i]?
-      let b ← s.u[i - 1]?
-      o.dot a q0 b q1) d s.du 1 v1
-  let udu ← s.u[s.du]?
-  let wl ← o.mul udu q1
-  let v3 ← subAt o v2 (d + s.du + 1) wl
-  let dv ← scanDeg v3 (s.du + d + 2 - s.dv) s.dv s.dv
+  let v3 ← updTwo o s.u s.v d s.du q0 q1
+  let dv ← scanDeg v3 (s.du + d + 2 - s.dv) s.dv s.dv   -- for i in dv..=(du + d + 1)
   some { s with g := g3, v := v3, dv := dv }
 
 /-- lines 679-694: `g -= q x^d f`, `v -= q x^d u` -/
@@ -145,15 +148,11 @@ def stepOne (o : Ops) (s : St) : Option St := do
   let i0 ← o.inv fdf
   let q ← o.mul gdg i0
   let d := s.dg - s.df
-  let g1 ← axLoop o (fun i => do
-      let a ← s.f[i]?
-      o.mul q a) d (s.df + 1) 0 s.g
+  let g1 ← updOne o s.f s.g d s.df q
   let z ← g1[s.dg]?
   if z ≠ 0 then none else                      -- assert_eq!(g[dg], 0)
-  let v1 ← axLoop o (fun i => do
-      let a ← s.u[i]?
-      o.mul q a) d (s.du + 1) 0 s.v
-  let dv ← scanDeg v1 (s.du + d + 1 - s.dv) s.dv s.dv
+  let v1 ← updOne o s.u s.v d s.du q
+  let dv ← scanDeg v1 (s.du + d + 1 - s.dv) s.dv s.dv   -- for i in dv..=(du + d)
   some { s with g := g1, v := v1, dv := dv }
 
 /-- the division step followed by lines 696-698 -/
